@@ -692,8 +692,93 @@ double refine_reference(P & prob, typename P::Args & xr, int iters = 60)
 
 #include "optim_families.hpp"
 
+
+#if PART == 1
+// ---------------------------------------------------------------- default-options call sequences
+// Independent minimize calls made with default-constructed MinimizeOptions must not influence each other:
+// case k runs, IN ONE PROCESS and after cases 0..k-1,
+//   A: a problem whose solve legitimately ends with a tiny trust region (r(x) = 1 + x^2 from a tiny x0: a run of
+//      rejections), or one that starts at its minimiser, or an ordinary one — all with `MinimizeOptions{}`;
+//   B: a well-conditioned linear least-squares problem with a fresh `MinimizeOptions{}`, and the same problem
+//      with an explicitly constructed fresh CeresStrategy (the path every other family uses).
+// Observed: trust-region size of a freshly default-constructed options object before A and after A (through the
+// public `strat->get_delta()`), whether two default options objects share their strategy object, B's result
+// under both option objects (must be bit-identical) and its distance to the QR solution.
+struct DsPolyF
+{
+  Eigen::Matrix<double, 1, 1> operator()(const Eigen::Matrix<double, 1, 1> & x) const
+  {
+    return Eigen::Matrix<double, 1, 1>(1 + x(0) * x(0));
+  }
+  Eigen::Matrix<double, 1, 1> jacobian(const Eigen::Matrix<double, 1, 1> & x) const
+  {
+    return Eigen::Matrix<double, 1, 1>(2 * x(0));
+  }
+};
+
+static void default_sequence(FILE * out, int n_cases, int only /* -1: print all */)
+{
+  for (int k = 0; k < n_cases; ++k) {
+    Rng rng(seed_from_env() * 1000003ull + 424243ull + uint64_t(k) * 7919ull);
+    std::ostringstream o;
+    o << "DEFSEQ {\"k\":" << k << ",\"seed\":" << seed_from_env();
+    {
+      smooth::MinimizeOptions f0;
+      o << ",\"delta_fresh_before\":\"" << hexd(f0.strat->get_delta()) << "\"";
+      smooth::MinimizeOptions f1;
+      o << ",\"shared_default_strategy\":" << (f0.strat.get() == f1.strat.get() ? 1 : 0);
+    }
+    // ---- call A
+    const int akind = k % 3;
+    int a_status = -1;
+    std::size_t a_iter = 0;
+    if (akind == 0) {
+      DsPolyF f;
+      Eigen::Matrix<double, 1, 1> x(rng.sign() * rng.logu(1e-7, 1e-3));
+      const auto r = smooth::minimize<diff::Type::Analytic>(f, smooth::wrt(x));
+      a_status = int(r.status); a_iter = r.iter;
+    } else {
+      MatrixXd A; VectorXd b, xs, x0; std::string tag;
+      gen_lin(rng, 7, 4, akind == 1 ? 1 /* start at the minimiser */ : 0, A, b, xs, x0, tag);
+      LinF<7, 4> f; f.A = A; f.b = b;
+      Eigen::Matrix<double, 4, 1> x = x0;
+      const auto r = smooth::minimize<diff::Type::Analytic>(f, smooth::wrt(x));
+      a_status = int(r.status); a_iter = r.iter;
+    }
+    o << ",\"a_kind\":" << akind << ",\"a_status\":" << a_status << ",\"a_iter\":" << a_iter;
+    {
+      smooth::MinimizeOptions f2;
+      o << ",\"delta_fresh_after\":\"" << hexd(f2.strat->get_delta()) << "\"";
+    }
+    // ---- call B: default options vs explicit fresh strategy
+    MatrixXd A; VectorXd b, xs, x0; std::string tag;
+    double kappa = 1e9;
+    for (int tries = 0; tries < 50 && !(kappa <= 20.0); ++tries) kappa = gen_lin(rng, 7, 4, 0, A, b, xs, x0, tag);
+    LinF<7, 4> f; f.A = A; f.b = b;
+    const Eigen::Matrix<double, 4, 1> ref = A.colPivHouseholderQr().solve(b);
+    Eigen::Matrix<double, 4, 1> xd = x0, xe = x0;
+    const auto rd = smooth::minimize<diff::Type::Analytic>(f, smooth::wrt(xd));
+    smooth::MinimizeOptions oe;
+    oe.strat = std::make_shared<smooth::CeresStrategy>();
+    const auto re = smooth::minimize<diff::Type::Analytic>(f, smooth::wrt(xe), oe);
+    o << ",\"kappa\":\"" << hexd(kappa) << "\",\"b_status_default\":" << int(rd.status) << ",\"b_iter_default\":" << rd.iter
+      << ",\"b_status_explicit\":" << int(re.status) << ",\"b_iter_explicit\":" << re.iter
+      << ",\"b_x_default\":" << jvec(VectorXd(xd)) << ",\"b_x_explicit\":" << jvec(VectorXd(xe)) << ",\"b_x0\":" << jvec(x0)
+      << ",\"b_dist_default\":\"" << hexd((xd - ref).norm()) << "\",\"b_dist_explicit\":\"" << hexd((xe - ref).norm())
+      << "\",\"b_dist_start\":\"" << hexd((x0 - ref).norm()) << "\"}";
+    if (only < 0 || only == k) std::fprintf(out, "%s\n", o.str().c_str());
+  }
+}
+#endif
+
 int main(int argc, char ** argv)
 {
+#if PART == 1
+  if (argc > 2 && std::string(argv[1]) == "defseq") {  // replay of one default-options case (history 0..k included)
+    default_sequence(stdout, std::atoi(argv[2]) + 1, std::atoi(argv[2]));
+    return 0;
+  }
+#endif
   if (argc > 3 && std::string(argv[1]) == "run") {
     run_one(stdout, std::atoi(argv[2]), std::atoi(argv[3]));
     return 0;
@@ -701,6 +786,9 @@ int main(int argc, char ** argv)
   const int n = argc > 2 ? std::atoi(argv[2]) : 20;
   for (int fam = 0; fam < n_families(); ++fam)
     for (int i = 0; i < n; ++i) run_one(stdout, fam, i);
+#if PART == 1
+  default_sequence(stdout, std::max(12, n / 4), -1);
+#endif
   return 0;
 }
 #endif
